@@ -13,8 +13,11 @@ PROP = "C06"
 def enumerate_specs(tier):
     specs = []
     for name, od in cat.REG.items():
-        for args in od.configs(tier):
+        for ci, args in enumerate(od.configs(tier)):
             specs.append({"op": name, "args": args, "variant": {}})
+            # the same configuration with the first operand arriving as a non-contiguous view
+            if ci % 3 == 0 and len(od.inputs(args)[0].shape) >= 2:
+                specs.append({"op": name, "args": args, "variant": {"layout": "T" if ci % 2 == 0 else "S"}})
         for args in od.illegal_configs(tier):
             specs.append({"op": name, "args": args, "variant": {"illegal": True}})
     return specs
